@@ -130,3 +130,5 @@ func cloneJSON[T any](c *T) *T {
 	json.Unmarshal(b, &out)
 	return &out
 }
+
+func sortStrings(xs []string) { sort.Strings(xs) }
